@@ -1428,8 +1428,9 @@ class UserActions(object):
     removed_col_refs = set((c.id for c in col_recs))
     re_sort_sections = []
     re_sort_specs = []
-    for section in parent_sections:
+    for section in sorted(parent_sections):
       # Only iterates once for each section. Updated sort removes all columns being deleted.
+      # (Sorted, since a set of records has no fixed iteration order across processes.)
       sort = json.loads(section.sortColRefs) if section.sortColRefs else []
       updated_sort = [col_spec for col_spec in sort
                       if sort_specs.col_ref(col_spec) not in removed_col_refs]
